@@ -730,10 +730,16 @@ func TestPropMutationsBreakVerification(t *testing.T) {
 		step, canonMap := g.Step()
 		penv := g.EnvMap("penv", 4)
 		repo := g.RepoURL()
-		kp := pool[rapid.IntRange(0, 1).Draw(t, "fast")]
-		if rapid.IntRange(0, 4).Draw(t, "anykey") == 0 {
-			kp = rapid.SampledFrom(pool).Draw(t, "key")
+		// the key KIND first (the crypto.Signer path is its own branch of Sign and Verify), weighted by
+		// cost: EdDSA and the ES256 signer are cheap, PS512 is slow
+		kind := rapid.SampledFrom([]string{"EdDSA", "EdDSA", "EdDSA", "ES256-signer", "ES256-signer", "ES512", "ES512", "PS512"}).Draw(t, "keykind")
+		var ofKind []keys.Pair
+		for _, p := range pool {
+			if p.Kind == kind {
+				ofKind = append(ofKind, p)
+			}
 		}
+		kp := rapid.SampledFrom(ofKind).Draw(t, "key")
 		sf := &signature.CommandStepWithInvariants{CommandStep: *step, RepositoryURL: repo}
 		sig, err := signature.Sign(ctx, kp.Priv, sf, signature.WithEnv(penv))
 		if err != nil {
